@@ -75,6 +75,16 @@ class T1Client(BaseClient):
                     and len(n.value.generators) == 1 and isinstance(n.value.elt, ast.Attribute) and isinstance(n.value.generators[0].target, ast.Name) \
                     and isinstance(n.value.elt.value, ast.Name) and n.value.elt.value.id == n.value.generators[0].target.id and not n.value.generators[0].ifs:
                 saved_lists[n.targets[0].id] = (n.value.elt.attr, ast.unparse(n.value.generators[0].iter))
+        # aligned comprehensions:  M = [x for <gens>] ; L = [x.a for <the same gens>]  =>  L[i] is the saved `a` of M[i]
+        comps = {}
+        for n in ast.walk(fn):
+            if isinstance(n, ast.Assign) and len(n.targets) == 1 and isinstance(n.targets[0], ast.Name) and isinstance(n.value, ast.ListComp):
+                comps[n.targets[0].id] = (n.value.elt, " ".join(ast.unparse(g) for g in n.value.generators))
+        for L, (elt, gens) in comps.items():
+            if isinstance(elt, ast.Attribute) and isinstance(elt.value, ast.Name) and L not in saved_lists:
+                for M, (elt2, gens2) in comps.items():
+                    if M != L and gens2 == gens and isinstance(elt2, ast.Name) and elt2.id == elt.value.id:
+                        saved_lists[L] = (elt.attr, M)
         for loop in ast.walk(fn):
             if not isinstance(loop, ast.For):
                 continue
